@@ -255,7 +255,16 @@ def run_unit(unit_path, repo, verif_root, build_root, do_twin=True, rlimit=None)
         if line and line <= len(genmap) and genmap[line - 1]:
             ex, f, sl = genmap[line - 1]
             src = "%s:%s" % (f, sl) if sl else "%s (annotation of %s)" % (f, ex)
-        labels = [s.get("label") for s in d.get("spans", []) if s.get("label")]
+        labels = []
+        for s2 in d.get("spans", []):
+            if not s2.get("label"):
+                continue
+            l2 = s2.get("line_start") if os.path.basename(s2.get("file_name", "")) == gen_name else None
+            src2 = None
+            if l2 and l2 <= len(genmap) and genmap[l2 - 1] and genmap[l2 - 1][2]:
+                src2 = "%s:%s" % (genmap[l2 - 1][1], genmap[l2 - 1][2])
+            labels.append({"label": s2["label"], "gen_line": l2, "source": src2,
+                           "text": gen_lines[l2 - 1].strip() if l2 and l2 <= len(gen_lines) else None})
         rec = {"function": fn, "kind": kind, "message": msg, "gen_line": line, "text": text,
                "source": src, "labels": labels,
                "id": "%s/%s/%s@%s" % (name, fn, kind, vx.norm(text)[:100] if text else "?")}
@@ -285,14 +294,11 @@ def run_unit(unit_path, repo, verif_root, build_root, do_twin=True, rlimit=None)
             tcr = name + "_twin"
             ok_fns = {}
             for f in tfb:
-                if f["function"].startswith(tcr + "::") and f.get("mode:", "") == "exec":
-                    n = f["function"][len(tcr) + 2:]
+                if f["function"].startswith(tcr + "::") and f["function"].endswith("__twin"):
+                    n = f["function"][len(tcr) + 2:-len("__twin")].split("::")[-1]
                     ok_fns[n] = ok_fns.get(n, True) and bool(f.get("success"))
-            vac = [n for n in res["extracted_fns"]
-                   if any(k == n or k.endswith("::" + n) for k in ok_fns)
-                   and all(v for k, v in ok_fns.items() if k == n or k.endswith("::" + n))]
-            missing = [n for n in res["extracted_fns"]
-                       if not any(k == n or k.endswith("::" + n) for k in ok_fns)]
+            vac = [n for n in res["extracted_fns"] if ok_fns.get(n) is True]
+            missing = [n for n in res["extracted_fns"] if n not in ok_fns]
             res["twin"] = {"checked": sorted(ok_fns), "vacuous": vac, "not_seen": missing,
                            "wall_s": tr["wall"]}
             res["wall_s"] += tr["wall"]
